@@ -139,11 +139,8 @@ func (l *linkedNode) flatten() map[NodeID]struct{} {
 		node := stack[len(stack)-1]
 		stack = stack[:len(stack)-1]
 
-		// Skip already flattened nodes
-		if _, ok := flattened[node.nodeID]; ok {
-			continue
-		}
-
+		// A node ID which is listed more than once is only recorded once, but
+		// the nodes linked behind it still have to be visited.
 		flattened[node.nodeID] = struct{}{}
 
 		for _, child := range node.next {
